@@ -90,6 +90,13 @@ def r2_upsert_shape(ctx, res):
                 for c in ('status_rowid', 'definition'):
                     if f'{c}=excluded.{c}' not in txt:
                         res.find(key, b.site.loc, f'SET {c} is not taken from excluded.{c}')
+                # the update is unconditional: a WHERE on DO UPDATE leaves listed ILIs untouched whenever its condition is not
+                # true - in particular NULL (`definition != excluded.definition` with a NULL on either side)
+                low = ' '.join(st.text.split()).lower()
+                tail = low[low.index('do update'):] if 'do update' in low else ''
+                if ' where ' in ' ' + tail + ' ':
+                    res.find(key, b.site.loc, 'the DO UPDATE of the ilis upsert carries a WHERE clause: listed ILIs for which the condition is '
+                                              'false or NULL keep their old status / definition')
         # row binding (name-free source descriptors of the binding machinery of C01)
         from .c01 import computed_bindings
         cb = computed_bindings(ctx)
